@@ -559,6 +559,14 @@ def real_socket_stage(rep: Report, tier: str, seed: int) -> tuple[list[dict[str,
             tr["scn"] = {"fam": "real-e2e-run", "kind": kind, "mode": "lockstep", "n": len(big)}
             tr["lens"] = [len(m) for m in big]
             results.append(tr)
+        # ... and two peers connected at the same time: each gets the replies to its own requests
+        ma = [bytes([0x22, 0xA0, i]) + bytes([i] * (i % 5)) for i in range(8)]
+        mb = [bytes([0x22, 0xB0, i]) + bytes([0xFF - i] * ((i + 2) % 5)) for i in range(8)]
+        for tr in L.run_real(lambda d, kind=kind: L.real_two_clients(kind, ma, mb, d)):
+            tr["feat"] = {"nontrivial": True, "eof": "none"}
+            tr["scn"] = {"fam": "real-two-clients", "kind": kind, "mode": "lockstep", "n": len(ma)}
+            tr["lens"] = [len(m) for m in ma]
+            results.append(tr)
     rep.extra["real_socket_runs"] = sum(1 for r in results if r["kind"].startswith("real-"))
     return results, pairs
 
@@ -838,6 +846,9 @@ def run(tier: str, seed: int) -> Report:
             rep.nontrivial.add(nontrivial_id(r))
         if bv != "none":
             byte_checked += 1
+        if r["scn"].get("fam") == "real-two-clients" and v == "H/feed-of-bytes-never-sent":
+            # with two peers this is not a recording error: bytes arrived at a peer they were never sent to
+            v = "T1/bytes-delivered-to-a-peer-they-were-not-sent-to"
         if v.startswith("H/") or bv.startswith("H/"):
             raise Machinery(f"malformed recording ({v}, {bv}) for {json.dumps(r['scn'], default=str)[:600]}")
         if v != "ok":
